@@ -704,8 +704,8 @@ impl<C: OrdColl> OrdExec<C> {
             if s.slots.len() > bound {
                 return Err(Fail::new("slots-bound", format!("arena has {} slots, peak population {} (bound 8*(peak+1)+2*max(hint,8)+64 = {})", s.slots.len(), self.peak, bound)));
             }
-            if was_clear && (s.root != EMPTY_REF || s.free.len() != s.slots.len() - 1) {
-                return Err(Fail::new("slots-clear", format!("after clear: root {} and {} of {} slots free", s.root as i32, s.free.len(), s.slots.len() - 1)));
+            if was_clear && (s.root != EMPTY_REF || s.free.len() != s.slots.len().saturating_sub(1)) {
+                return Err(Fail::new("slots-clear", format!("after clear: root {} and {} of {} slots free", s.root as i32, s.free.len(), s.slots.len().saturating_sub(1))));
             }
         }
         Ok(())
